@@ -247,5 +247,5 @@ def owned_load(r, src):
 
 
 def phases(tier):
-    n = {"quick": 16 * 700, "thorough": 16 * 22000}[tier]
+    n = {"quick": 16 * 1200, "thorough": 16 * 22000}[tier]
     return [dict(name="main", kind="hypothesis", strategy=cases(tier, root_names=gen.ROOT_NAMES), check=check, examples=n)]
